@@ -302,6 +302,12 @@ def probe_from_dict(ctx, rng, nprng):
     elif mode == "v2":
         yastn.Tensor.from_dict(d)
         yastn.from_dict(d, config=a.config)
+        # a compatible but different config object as override (other fusion default / contraction policy): the caller's
+        # dictionary still describes the original afterwards
+        cfg2 = D.make_cfg(sym, False, default_fusion=rng.choice(("meta", "hard")), tensordot_policy=rng.choice(("no_fusion", "fuse_contracted")))
+        yastn.Tensor.from_dict(d, config=cfg2)
+        yastn.from_dict(d, config=cfg2)
+        ctx.count("from_dict_with_other_config")
     else:
         data, meta = yastn.split_data_and_meta(d)
         yastn.from_dict(yastn.combine_data_and_meta(data, meta))
